@@ -98,3 +98,23 @@ package keyvalue
 //@   requires pr != nil && s != nil
 //@   modifies *
 //@   callsite dbPut : key == "phase"
+
+// ---------------------------------------------------------------------------
+// Restorer (C10/C11, thin): every successful Next yields a NEW channel object (a restored channel never shares its data with the
+// one yielded before), filled from exactly the keys the persister writes. decodeNext (iterator handling, decoding into the target
+// inside the new object) is a trusted frame.
+// ---------------------------------------------------------------------------
+//@ func (*ChannelIterator).decodeNext
+//@   trusted
+//@   requires i != nil
+//@   modifies i.err
+//@ func (*ChannelIterator).Next
+//@   requires i != nil
+//@   modifies i.ch, i.err
+//@   ensures result ==> i.ch != nil && fresh(i.ch)
+//@   ensures len(i.its) > 0 ==> i.ch != nil && fresh(i.ch)
+//@   loop 1
+//@     modifies i.err, fresh
+//@     invariant i.ch != nil && fresh(i.ch) && i.ch.ParamsV != nil && len(i.ch.StagingTXV.Sigs) == len(i.ch.ParamsV.Parts)
+//@   callsite (*ChannelIterator).decodeNext : fresh(i.ch) && (key == "current" || key == "index" || key == "params" || key == "parent" || key == "peers" || key == "phase" || key == "staging:state" ||
+//@     (exists k int :: 0 <= k && k < len(i.ch.ParamsV.Parts) && key == sigKeyStr(k, len(i.ch.ParamsV.Parts))))
